@@ -556,7 +556,9 @@ impl<'env> Executor<'env> {
                     let lists = Vec::from_iter((0..*count).map(|_| stack.pop()));
                     let mut len = 0;
                     for list in lists.into_iter().rev() {
-                        for item in ctx_ok!(list.try_iter()) {
+                        // spreading a value over the arguments iterates it: like the
+                        // `**kwargs` batches this goes through the undefined behavior.
+                        for item in ctx_ok!(undefined_behavior.try_iter(list)) {
                             stack.push(item);
                             len += 1;
                         }
